@@ -1,8 +1,9 @@
 """Hand-written mutants (DESIGN 6 'M' lists): name -> {'props': [...], 'edits': [(file, old, new), ...]}."""
 T = "monkeytype/typing.py"
+E = "monkeytype/encoding.py"
 MUTANTS = {
     "c04_required_any": {
-        "props": ["C04", "C05"],
+        "props": ["C04"],
         "edits": [(T, "if len(value_types) == num_typed_dicts\n    }", "if len(value_types) >= 1\n    }")],
     },
     "c04_list_first_arg": {
@@ -37,5 +38,49 @@ MUTANTS = {
     "c06_zero_unlimited": {
         "props": ["C06"],
         "edits": [(T, "max_typed_dict_size is None or len(dct)", "not max_typed_dict_size or len(dct)")],
+    },
+    "c07_large_union_lt": {
+        "props": ["C07"],
+        "edits": [(T, "if len(union.__args__) <= self.max_union_len:", "if len(union.__args__) < self.max_union_len:")],
+    },
+    "c07_configdict_no_keycheck": {
+        "props": ["C07"],
+        "edits": [(T, "            if key_type != e.__args__[0]:\n                return union\n", "")],
+    },
+    "c07_common_base_first_only": {
+        "props": ["C07"],
+        "edits": [(T, "        common_bases = functools.reduce(self._merge_common_bases, all_bases)", "        common_bases = functools.reduce(self._merge_common_bases, all_bases[:2])")],
+    },
+    "c07_empty_matches_all": {
+        "props": ["C07"],
+        "edits": [(T, "        return self._is_empty(typ) and any(\n            not self._is_empty(e)\n            and getattr(e, \"__origin__\", None) is getattr(typ, \"__origin__\", None)", "        return self._is_empty(typ) and any(\n            not self._is_empty(e)\n            and getattr(e, \"__origin__\", None) is not None")],
+    },
+    "c07_generator_ignores_send": {
+        "props": ["C07"],
+        "edits": [(T, "if args[1] is NoneType and args[2] is NoneType:", "if args[1] is NoneType:")],
+    },
+    "c07_large_union_ancestor_first_two": {
+        "props": ["C07"],
+        "edits": [(T, "issubclass(t, ancestor) for t in union.__args__\n", "issubclass(t, ancestor) for t in union.__args__[:3]\n")],
+    },
+    "c08_no_sort_keys": {
+        "props": ["C08"],
+        "edits": [(E, "    type_dict = type_to_dict(typ)\n    return json.dumps(type_dict, sort_keys=True)", "    type_dict = type_to_dict(typ)\n    return json.dumps(type_dict)")],
+    },
+    "c08_empty_tuple_bare": {
+        "props": ["C08"],
+        "edits": [(E, "    if elem_type_dicts is not None and is_generic(typ):", "    if elem_type_dicts and is_generic(typ):")],
+    },
+    "c08_nonetype_is_none": {
+        "props": ["C08"],
+        "edits": [(E, '    if (encoded is None) or (encoded == "null"):', '    if (encoded is None) or ("NoneType" in encoded and "elem_types" not in encoded):')],
+    },
+    "c08_unwrap_dropped": {
+        "props": ["C08"],
+        "edits": [("monkeytype/util.py", "    func = inspect.unwrap(func)\n", "    func = getattr(func, '__wrapped__', func)\n")],
+    },
+    "c08_typed_dict_total_lost": {
+        "props": ["C08"],
+        "edits": [(E, '        d["qualname"], {k: type_from_dict(v) for k, v in d["elem_types"].items()}\n', '        d["qualname"], {k: type_from_dict(v) for k, v in sorted(d["elem_types"].items())[:3]}\n')],
     },
 }
